@@ -1,7 +1,7 @@
 #!/bin/bash
 # run every registered quick (or thorough) check once on the current tree; summary on stdout
 TIER=${1:-quick}
-cd /verif
+cd "$(dirname "$0")/.."
 for p in C01 C02 C03 C04 C05 C06 C07 C08 C09 C10 C11 C12 C13 C14 C15 C16 C17 C18; do
   timeout 7200 python3 tools/check.py $p --tier $TIER 2>&1 | grep -E "^(OK|VIOLATION|KNOWN)" | head -3
 done
